@@ -138,6 +138,7 @@ func verif_writes(c any) int         { return 0 }
 // is determined by the object's identity alone.
 func verif_uf_str(name string, p any) string { verif_ghostUsed = true; return "" }
 func verif_uf_u64(name string, p any) uint64 { verif_ghostUsed = true; return 0 }
+func verif_uf_val[T any](name string, p any) T { verif_ghostUsed = true; var z T; return z }
 
 var _ = verif_closed
 var _ = verif_notified
